@@ -271,6 +271,20 @@ def poolOnly (evs : List Ev) : Bool :=
     | .s tb _ _ _ => poolTables.any (fun i => tb == i.name)
     | _ => true)
 
+/-- none of the nonces `start, start+1, .., start+visited-1` of `sender` has a row in the pending table -/
+def drainGone (n : Node) (sender : String) (start visited : Nat) : Bool :=
+  (List.range visited).all (fun k => ((n.t .pending).latest (sender ++ hexN 16 (start + k))).isNone)
+
+/-- The drain loop of `add_raw_tx_to_block` calls `remove_pending_tx(sender, nonce)` for EVERY entry it visits -
+executed, or skipped because it was parked `MAX_FUTURE_TRANSACTION_BLOCKS` or more blocks ago (or carries no block
+number) - so after an accepted call no visited nonce has a row in `account_and_nonce_to_tx_hash` any more.
+(`remove_pending_tx` unsets that table only: the companion row in `pending_tx_hash_to_tx_id` is never removed, so
+nothing is required of it.) `r` is the answer of `addTxs` for the same events. -/
+def drainCheck (n : Node) (sender : String) (start visited : Nat) (r : Node × Class) : Node × Class :=
+  match r with
+  | (n', .ok) => if drainGone n' sender start visited then (n', .ok) else (n, .reject "drain-kept")
+  | r => r
+
 inductive RawDecode where
   | fail
   | wrongChain
@@ -296,8 +310,8 @@ def addRawTx (n : Node) (ts : Nat) (hash0 : String) (idx : Nat) (txid : String) 
       else if evs.any (fun e => match e with | .s .. => true | .x "tx" .. => true | _ => false) then (n, .reject "ignored-wrote")
       else (n, .ok)
     else
-      let (executed, _) := drainPlan n sender bn FUTURE_NONCES (acct + 1)
-      addTxs n ts hash0 idx (some txid) evs (some (1 + executed))
+      let plan := drainPlan n sender bn FUTURE_NONCES (acct + 1)
+      drainCheck n sender (acct + 1) plan.2 (addTxs n ts hash0 idx (some txid) evs (some (1 + plan.1)))
 
 def resetLbi (n : Node) : Node := { n with lbi := {} }
 
@@ -309,6 +323,20 @@ def finOnly (hash : String) (evs : List Ev) : Bool :=
     | .s tb _ k _ => (BId.ofName tb).isSome || (tb == TId.hashToNumber.name && k == hash) ||
         poolTables.any (fun i => tb == i.name)
     | _ => true)
+
+/-- `clear_txpool(bn)`, called by `finalise_block` of block `bn`: scans all readable rows of
+`account_and_nonce_to_tx_hash` and calls `remove_pending_tx` for every row whose transaction carries no block number
+or was parked in a block `pb` with `pb + MAX_FUTURE_TRANSACTION_BLOCKS <= bn`. So afterwards every readable row was
+parked in a block `pb` with `pb + MAX_FUTURE_TRANSACTION_BLOCKS > bn`. (A readable row has its key in the value
+column or in the cache.) -/
+def poolFreshAt (n : Node) (bn : Nat) : Bool :=
+  ((n.t .pending).db.keys ++ (n.t .pending).cache.keys).all (fun k =>
+    match (n.t .pending).latest k with
+    | none => true
+    | some v =>
+      match parkedBlock v with
+      | some pb => decide (pb + FUTURE_BLOCKS > bn)
+      | none => false)
 
 /-- `finalise_block` (one block): the recorded writes are the block rows, expired pool entries, the hash rows. -/
 def finaliseOne (n : Node) (ts : Nat) (hash0 : String) (count : Nat) (evs : List Ev) : Node × Class :=
@@ -332,6 +360,8 @@ def finaliseOne (n : Node) (ts : Nat) (hash0 : String) (count : Nat) (evs : List
       if (n'.b .numberToHash).get bn ≠ some hash then (n, .reject "no-hash-row")
       else if ((n'.b .block).get bn).isNone ∨ ((n'.b .rawBlock).get bn).isNone then (n, .reject "no-block-row")
       else if (n'.t .hashToNumber).latest hash ≠ some (hexN 16 bn) then (n, .reject "no-hash-index")
+      -- `clear_txpool`: no entry parked 10 or more blocks ago is left in the pool
+      else if !poolFreshAt n' bn then (n, .reject "expired-kept")
       else ({ n' with latest := latest', maxBlock := max', lbi := {} }, .ok)
 
 def stampOf : Ev → Option Nat
